@@ -214,6 +214,9 @@ impl Marshal for Variant<'_, '_> {
         &self,
         ctx: &mut crate::wire::marshal::MarshalContext,
     ) -> Result<(), crate::wire::errors::MarshalError> {
+        if !crate::wire::marshal::container::value_has_type(&self.value, &self.sig) {
+            return Err(crate::signature::Error::InvalidSignature.into());
+        }
         let mut sig = String::new();
         self.sig.to_str(&mut sig);
         if sig.len() > 255 {
